@@ -24,7 +24,15 @@ def pick_kind(rng, only=None):
 
 
 def reqs(rng, n, only=None):
-    return ["req %s %d %d" % (pick_kind(rng, only), rng.randrange(16), rng.randrange(40)) for _ in range(n)]
+    out = []
+    for _ in range(n):
+        if only in (None, "cfg") and rng.random() < 0.15:
+            # a publish whose history id is drawn by a node's own sequence, as a leader does (mostly by the node that
+            # is compacted and restarted)
+            out.append("reqd %s %d %d" % (rng.choice(["R", "R", "R", "L"]), rng.randrange(16), rng.randrange(40)))
+        else:
+            out.append("req %s %d %d" % (pick_kind(rng, only), rng.randrange(16), rng.randrange(40)))
+    return out
 
 
 def splits(rng, n):
@@ -98,6 +106,11 @@ def gen_restart(rng, tier):
                 ops.append("dump")
         ops += ["dump", "restart R", "dump", "compact R", "restart R", "restart F", "dump"]
         cases.append(Case("restart-%d" % i, ops, True, "random"))
+    # directed: a compaction in the middle of a block of history ids on the node that draws them, more draws, restart, draw
+    for extra in (1, 3):
+        ops = ["start", "reqd R 1 1", "reqd R 2 2", "flush 10", "compact R"] + ["reqd R %d %d" % (j, j) for j in range(extra)]
+        ops += ["flush 10", "dump", "restart R", "dump", "reqd R 3 3", "flush 10", "dump"]
+        cases.append(Case("midblock-%d" % extra, ops, True, "boundary"))
     # directed: an interrupted compaction whose file is longer than the next successful one, for every component that
     # comes late in the snapshot (the removed item is then exactly the stale tail)
     for add, rm in [("inst 1 1", "instrm 1 0"), ("tblset 0 1", "tblrm 0 0"), ("nsset 1 1", "nsdel 1 0"), ("cfgset 0 1", "cfgrm 0 0")]:
